@@ -146,7 +146,7 @@ func RuleF7(c *Ctx) {
 		nbCalls := findCalls(fn, staticIs("bytes", "", "NewBuffer"))
 		core.AllInstrs(fn, func(i ssa.Instruction) {
 			if st, isStore := i.(*ssa.Store); isStore {
-				if fa, isFA := st.Addr.(*ssa.FieldAddr); isFA && fa.Field == 1 {
+				if fa, isFA := st.Addr.(*ssa.FieldAddr); isFA && fieldNameOf(fa) == "buff" {
 					if _, isT := fa.X.Type().Underlying().(*types.Pointer); isT && strings.HasSuffix(fa.X.Type().String(), "common.Transcript") {
 						nbVal = st.Val
 					}
@@ -187,12 +187,23 @@ func RuleF7(c *Ctx) {
 			c.Bad("F7", "common.NewTranscript:buffer", fn.Pos(), "NewTranscript never stores a pending buffer into the transcript it returns")
 		}
 		if nw != nil && w != nil && nbVal != nil {
-			ok := w.Common().Value == nw.(ssa.Value) && core.FlowsTo(fn.Params[0], w.Common().Args[0], nil)
+			// the Write is on the hash object: the sha256.New() value itself, or the state field it was stored into
+			onHash := w.Common().Value == nw.(ssa.Value)
+			if u, isLoad := w.Common().Value.(*ssa.UnOp); isLoad && u.Op == token.MUL {
+				if fa, isFA := u.X.(*ssa.FieldAddr); isFA && fieldNameOf(fa) == "state" && strings.HasSuffix(fa.X.Type().String(), "common.Transcript") {
+					for _, st := range allStoresToField(fn, fa.X, "state") {
+						if st.Val == nw.(ssa.Value) && core.Precedes(fn, st, w) {
+							onHash = true
+						}
+					}
+				}
+			}
+			ok := onHash && core.FlowsTo(fn.Params[0], w.Common().Args[0], nil)
 			var stState bool
 			stBuff := true
 			core.AllInstrs(fn, func(i ssa.Instruction) {
 				if st, isStore := i.(*ssa.Store); isStore {
-					if fa, isFA := st.Addr.(*ssa.FieldAddr); isFA && fa.Field == 0 && strings.HasSuffix(fa.X.Type().String(), "common.Transcript") {
+					if fa, isFA := st.Addr.(*ssa.FieldAddr); isFA && fieldNameOf(fa) == "state" && strings.HasSuffix(fa.X.Type().String(), "common.Transcript") {
 						stState = st.Val == nw.(ssa.Value)
 					}
 				}
@@ -209,4 +220,17 @@ func RuleF7(c *Ctx) {
 func wholeSlice(v ssa.Value) bool {
 	sl, ok := v.(*ssa.Slice)
 	return ok && sl.Low == nil && sl.High == nil && sl.Max == nil
+}
+
+// allStoresToField: stores into field `name` of the object base points to.
+func allStoresToField(fn *ssa.Function, base ssa.Value, name string) []*ssa.Store {
+	var out []*ssa.Store
+	core.AllInstrs(fn, func(i ssa.Instruction) {
+		if st, ok := i.(*ssa.Store); ok {
+			if fa, ok := st.Addr.(*ssa.FieldAddr); ok && fa.X == base && fieldNameOf(fa) == name {
+				out = append(out, st)
+			}
+		}
+	})
+	return out
 }
